@@ -32,8 +32,9 @@ Pool == << Field(B("Flags"), <<>>, "struct", SubE),            \* first, so that
            Field(B("P"), <<>>, "arrint", NoT), Field(B("Inner"), <<>>, "ptrstruct", NoT), Field(B("Emb"), <<>>, "embedded", NoT),
            Field(B("Port"), B("listen"), "int", NoT), Field(B("Listen"), <<>>, "int", NoT), Field(B("Port"), <<>>, "int", NoT),
            Field(B("X"), <<>>, "defint", NoT), Field(B("X"), <<>>, "defstring", NoT), Field(B("Y"), <<>>, "deffloat", NoT), Field(B("Y"), <<>>, "defbool", NoT),
-           Field(B("z"), B("foo_bar"), "int", NoT) >>                          \* an unexported field that carries a tag
-Idx == 1..Len(Pool)
+           Field(B("z"), B("foo_bar"), "int", NoT),
+           Field(B("Emb"), <<>>, "embeddedptr", NoT) >>                          \* an embedded *struct{X int}, nil in the target: its promoted X cannot be reached                          \* an unexported field that carries a tag
+Idx == 1..(Len(Pool) - 1)      \* the last entry (nil embedded pointer) only in the descriptors of the targets scope: the fields scope is large enough
 Distinct(is) == \A i, j \in 1..Len(is) : i < j => (is[i] < is[j] /\ Pool[is[i]].go # Pool[is[j]].go)
 TOf(is, tn) == [tname |-> tn, fields |-> [i \in 1..Len(is) |-> Pool[is[i]]]]
 Esc == <<113, 34, 92, 10, 9, 195, 169, 35, 239, 191, 189>>      \* q " \ LF TAB e-acute # U+FFFD : a string value that needs every escape class (and holds the replacement character itself)
@@ -43,7 +44,7 @@ ValsQ == { IntV(1), StrV(B("s")), NilV, FloatV(5, 2), BoolV(TRUE) }
 InnerBlk(nm) == [type |-> B("inner"), name |-> nm, ents |-> << Ent(B("x"), IntV(7)) >>]
 Keys == IF Small THEN {"x", "X", "_x", "foo_bar", "foobar", "y", "name", "p"} ELSE {"x", "X", "_x", "X_", "foo_bar", "foobar", "f_oo_bar", "_foo__bar_", "y", "any", "name", "p"}
 EntsPool == { Ent(B(k), v) : k \in Keys, v \in (IF Small THEN {IntV(1), StrV(B("s")), NilV} ELSE Vals) }
-              \cup { Ent(B("x"), StrV(Esc)), Ent(B("foo_bar"), IntV(-5)), Ent(B("y"), StrV(<<>>)) }
+              \cup { Ent(B("x"), StrV(Esc)), Ent(B("foo_bar"), IntV(-5)), Ent(B("y"), StrV(<<>>)), Ent(B("x"), StrV(<<97, 92>>)) }   \* a\ : its literal ends in an escaped backslash
               \cup { EntB(B("inner"), InnerBlk(<<>>)), EntB(B("inner.n"), InnerBlk(B("n"))),
                      EntB(B("any"), [type |-> B("any"), name |-> <<>>, ents |-> << Ent(B("x"), IntV(7)) >>]),
                      EntB(B("inner.v1.2"), InnerBlk(<<118, 49, 46, 50>>)),
@@ -69,7 +70,7 @@ TKinds == {"ptr-struct", "ptr-slice", "nil", "struct", "nilptr-struct", "nilptr-
 \* (descriptor, type name): anonymous struct types and the declared types of the harness catalogue
 TDescs == { <<<<2, 4>>, <<>>>>, <<<<4>>, <<>>>>, <<<<3, 4>>, <<>>>>, <<<<2, 4>>, B("T")>>, <<<<4>>, B("FooBar")>>, <<<<2, 5>>, B("Srv")>>,
             <<<<25, 26>>, B("Conf")>>, <<<<27, 26>>, B("Conf")>>,
-            <<<<24, 25>>, <<>>>>, <<<<24, 25, 26>>, <<>>>> }        \* an embedded struct in front of a tagged field (and of a field the tag could be confused with)    \* two declared types of the same name, one with a tag
+            <<<<24, 25>>, <<>>>>, <<<<24, 25, 26>>, <<>>>>, <<<<33>>, <<>>>>, <<<<2, 33>>, <<>>>> }        \* an embedded struct in front of a tagged field (and of a field the tag could be confused with)    \* two declared types of the same name, one with a tag
 TBlocks == { [type |-> B(ty), name |-> nm, ents |-> es] : ty \in {"t", "foo_bar", "srv", "conf"}, nm \in {<<>>, B("n")},
              es \in { <<>>, <<Ent(B("x"), IntV(1))>>, <<Ent(B("x"), StrV(B("s")))>>, <<Ent(B("y"), IntV(1))>>, <<Ent(B("listen"), IntV(1))>>,
                       <<Ent(B("port"), IntV(1)), Ent(B("listen"), IntV(7))>> } }
